@@ -716,6 +716,10 @@ func libraryShapes(st *state, rng *Rng, c *Ctx) {
 		tris := render.ToTriangles(rec, render.NewMarchingCubesOctree(mc))
 		bb := s.BoundingBox()
 		g := sk.Grid3{Origin: bb.ScaleAboutCenter(1.01).Min, Res: 0.5 * (bb.Size().MaxComponent() / float64(mc))}
+		if len(rec.P) == 0 {
+			r.Violate(key, "C07 the renderer evaluated no point", key)
+			continue
+		}
 		i, _, _, ok := g.Index(rec.P[0])
 		levels, ok2 := levelsFromFirst(i)
 		if !ok || !ok2 {
